@@ -1114,17 +1114,23 @@ _HASHF = {}
 HASHER_T = '*verif.hasher'
 
 
-def hash_func(alg):
-    if alg not in _HASHF:
-        _HASHF[alg] = z3.Function('H_' + alg, z3.BitVecSort(8 * HASH_MAXLEN), z3.BitVecSort(8), z3.BitVecSort(8 * DIGEST_LEN[alg]))
-    return _HASHF[alg]
+def hash_func(alg, width=HASH_MAXLEN):
+    k = (alg, width)
+    if k not in _HASHF:
+        _HASHF[k] = z3.Function('H_%s%s' % (alg, '' if width == HASH_MAXLEN else '_%d' % width), z3.BitVecSort(8 * width), z3.BitVecSort(16), z3.BitVecSort(8 * DIGEST_LEN[alg]))
+    return _HASHF[k]
 
 
 def digest_bytes(alg, content):
-    if len(content) > HASH_MAXLEN:
-        raise Unsupported('more than %d bytes hashed' % HASH_MAXLEN)
-    bs = [tobv(b, 8) for b in content] + [bvval(0, 8)] * (HASH_MAXLEN - len(content))
-    d = hash_func(alg)(z3.Concat(*bs), bvval(len(content), 8))
+    # short inputs (the checksum obligations) share one function; long ones (whole documents used as cache keys and
+    # the like) use a wider one - digests of a short and of a long input are unrelated terms
+    width = HASH_MAXLEN
+    while width < len(content):
+        width *= 8
+    if width > 8192:
+        raise Unsupported('more than 8192 bytes hashed')
+    bs = [tobv(b, 8) for b in content] + [bvval(0, 8)] * (width - len(content))
+    d = hash_func(alg, width)(z3.Concat(*bs) if len(bs) > 1 else bs[0], bvval(len(content), 16))
     n = DIGEST_LEN[alg]
     return tuple(z3.simplify(Extract(8 * (n - i) - 1, 8 * (n - i - 1), d)) for i in range(n))
 
@@ -1364,3 +1370,95 @@ def _strings_cutsuffix(I, st, args):
         return Tup((s, False))
     c = match_at(s, len(s) - len(p), p)
     return as_alts([(c, Tup((Str(s[:len(s) - len(p)]), True))), (mk_not(c), Tup((s, False)))])
+
+
+# sync.Map: an association list per map object, kept beside the heap (single-threaded exploration; the stores
+# count as writes to the package-level variable that holds the map, for the non-interference obligations) --------
+def _syncmap_key(p):
+    return (p.obj, p.path)
+
+
+def _syncmap_get(st, p):
+    return st.aux.get('syncmap', {}).get(_syncmap_key(p), MapVal())
+
+
+def _syncmap_set(I, st, p, ents):
+    d = dict(st.aux.get('syncmap', {}))
+    d[_syncmap_key(p)] = MapVal(ents)
+    st.aux['syncmap'] = d
+    if getattr(I, 'track_globals', False) and isinstance(p.obj, str):
+        I.global_writes.add(p.obj)
+
+
+@model('(*sync.Map).Load')
+def _syncmap_load(I, st, args):
+    m, k = args
+    ents = _syncmap_get(st, m)
+    alts = []
+    for c, i in I.map_find(st, ents, k):
+        alts.append((c, Tup((None, False)) if i is None else Tup((ents[i][1], True))))
+    return as_alts(alts)
+
+
+@model('(*sync.Map).Store')
+def _syncmap_store(I, st, args):
+    m, k, v = args
+    ents = _syncmap_get(st, m)
+    alts = []
+    for c, i in I.map_find(st, ents, k):
+        def upd(s_, i=i):
+            e = _syncmap_get(s_, m)
+            _syncmap_set(I, s_, m, (e + ((k, v),)) if i is None else (e[:i] + ((e[i][0], v),) + e[i + 1:]))
+            return None
+        alts.append((c, upd))
+    if len(alts) == 1 and alts[0][0] is True:
+        return alts[0][1](st)
+    return ('alts', alts)
+
+
+@model('(*sync.Map).LoadOrStore')
+def _syncmap_loadorstore(I, st, args):
+    m, k, v = args
+    ents = _syncmap_get(st, m)
+    alts = []
+    for c, i in I.map_find(st, ents, k):
+        if i is None:
+            def ins(s_):
+                _syncmap_set(I, s_, m, _syncmap_get(s_, m) + ((k, v),))
+                return Tup((v, False))
+            alts.append((c, ins))
+        else:
+            alts.append((c, Tup((ents[i][1], True))))
+    if len(alts) == 1 and alts[0][0] is True:
+        p = alts[0][1]
+        return p(st) if callable(p) else p
+    return ('alts', alts)
+
+
+@model('(*sync.Map).Delete')
+def _syncmap_delete(I, st, args):
+    m, k = args
+    ents = _syncmap_get(st, m)
+    alts = []
+    for c, i in I.map_find(st, ents, k):
+        def rm(s_, i=i):
+            if i is not None:
+                e = _syncmap_get(s_, m)
+                _syncmap_set(I, s_, m, e[:i] + e[i + 1:])
+            return None
+        alts.append((c, rm))
+    if len(alts) == 1 and alts[0][0] is True:
+        return alts[0][1](st)
+    return ('alts', alts)
+
+
+# one-shot digests -------------------------------------------------------------------------------------------------
+def _mk_sum(alg):
+    def m(I, st, args):
+        cells = I.slice_cells(st, args[0])
+        return Arr(digest_bytes(alg, cells))
+    return m
+
+
+for _fn, _alg in (('crypto/md5.Sum', 'md5'), ('crypto/sha1.Sum', 'sha1'), ('crypto/sha256.Sum256', 'sha256'), ('crypto/sha512.Sum512', 'sha512')):
+    MODELS[_fn] = _mk_sum(_alg)
